@@ -34,7 +34,7 @@ TEXT = {
         "level_note": "Trusted: the window/quota models in harness/handlers/c18_test.go. An id seen but outside the window may go either way.",
     },
     "C19": {
-        "technique": "stateful property-based testing (rapid): generated multi-session schedules against a tally model; Registry.Gather() compared with the model after every barrier echo; concurrent variant compares totals",
+        "technique": "stateful property-based testing (rapid): generated multi-session schedules against a tally model; Registry.Gather() compared with the model after every barrier echo; concurrent variant compares totals; parallel-directions variant releases a client message and a handler message about the same subscription at the same moment (hundreds of rounds per case)",
         "level_text": "Exploration of message histories incl. repeated REQ/CLOSE, server CLOSED and sessions ending with open subscriptions; every quiescent point is compared exactly (gauges, per-type and per-kind counters) and pass-through is pointer-equal.",
         "level_note": "Trusted: the tally model in harness/handlers/c19_test.go. The harness's own barrier CLOSE / marker NOTICE messages are part of the tallies.",
     },
@@ -61,7 +61,7 @@ TEXT = {
     "C12": {
         "technique": "property-based testing (rapid) over real loopback WebSocket connections: generated frame sequences (valid, malformed, forged, replayed-with-alteration) against a frame classification oracle and a recording handler; generated handler output decoded by an independent JSON decoder",
         "level_text": "Exploration: hundreds of connections per run; per connection the handler must have received exactly the valid authentic frames in order, the client exactly one rejection per other frame in order, the connection must survive, and emitted server messages must arrive as equal JSON text frames.",
-        "level_note": "Trusted: the frame oracle (harness/gen wire + corruption classes), btcec for signing, coder/websocket client. JSON null variants are not generated. Sentinel CLOSE messages synchronise without sleeps.",
+        "level_note": "Trusted: the frame oracle (harness/gen wire + corruption classes), btcec for signing, coder/websocket client. JSON null variants are not generated; frames stay within the relay's default MaxMessageLength (a longer frame is answered by closing the connection, the documented size limit). Sentinel CLOSE messages synchronise without sleeps.",
     },
     "C13": {
         "technique": "property-based testing (rapid): generated handler compositions x client histories x cut points x ending modes x peer behaviours with bounded-time termination, goroutine-profile diff, router-registry (hook) and gauge observers; WebSocket send-timeout clause enumerated over ping settings",
@@ -71,7 +71,7 @@ TEXT = {
     "C20": {
         "technique": "property-based testing (rapid): generated header combinations x mux configurations through httptest (real WebSocket dial for the upgrade route) with an expectation of the served document built independently from the configuration struct; generated NIP-11 documents round-tripped with structural deep equality",
         "level_text": "Exploration over header/configuration combinations and NIP-11 documents; the document oracle is a generic JSON value constructed by the harness from the generated configuration (omitempty semantics), not the code's own encoder.",
-        "level_note": "Near-miss Accept spellings (parameters, case, lists) may be routed to the document or to the default handler (statement is about the exact value). Empty Upgrade header not generated.",
+        "level_note": "Near-miss Accept spellings (parameters, case, lists) may be routed to the document or to the default handler (statement is about the exact value). Empty Upgrade header not generated. The document is re-requested after the configuration changed (in place / derived copy); every *slog.Logger option of the mux and relay is set or unset by reflection.",
     },
     "C16": {
         "technique": "property-based testing (rapid): generated client message sequences against a deterministic store model (cache handler: complete output compared reply by reply) and a prefix-tolerant model (SQLite handler, asynchronous insertion; exact after an observed flush); differential dump/restore with identical-answer and byte-identical second dump checks",
@@ -84,7 +84,7 @@ TEXT = {
         "level_note": "Trusted: registry model + real-time rule (DESIGN.md A.3). Concurrent mode samples the scheduler; it cannot enumerate interleavings inside the registry's locks. 'Never delays publishers' is a 10 s bound (normal: microseconds).",
     },
     "C15": {
-        "technique": "property-based testing (rapid) of generated concurrent programs: recorded invocation/response histories checked for linearizability with porcupine against the deterministic store model; looped writer/reader stress templates with atomicity invariants on every query result; both also under the Go race detector",
+        "technique": "property-based testing (rapid) of generated concurrent programs: recorded invocation/response histories checked for linearizability with porcupine against the deterministic store model; looped writer/reader stress templates with atomicity invariants on every query result; read-your-writes (a completed Add is visible to every later query) and concurrent handler sessions with large answers; all also under the Go race detector",
         "level_text": "Exploration of sampled scheduler interleavings: barrier-started rounds concentrate operations on one hot event (versions, deletion request vs target, re-offers) so that conflicting calls overlap; histories are decided exactly by a linearizability checker, and the stress mode runs hundreds of thousands of calls per run against the invariants.",
         "level_note": "Trusted: porcupine v1.3.0, harness/model/detstore.go. Interleavings come from the Go scheduler, not from a controlled scheduler: a lock released a few instructions early can be missed; the race detector is what catches missing synchronisation.",
     },
